@@ -109,6 +109,9 @@ def run(ctx):
         xh.Cond(U, 'split_lines_fresh', timeout=200, path_timeout=30,
                 bound='two calls on equal 2-character strings with an in-place edit of the first result in between',
                 symbolic='2 code points, keepends flag'),
+        xh.Cond(U, 'split_lines_fresh_native', timeout=200, path_timeout=30,
+                bound='the same law natively (functools caches live) on 36 two-character strings over {a, LF, CR, FF, space, b}',
+                realised='two character indices, keepends flag'),
         xh.Cond('vp.harness.pipe', 'pipe_bytes', timeout=300, path_timeout=60, env={'VP_VERSIONS': '0,4,8'},
                 bound='4 byte skeletons with one symbolic ASCII byte inserted at offset 0..3, with / without UTF-8 BOM',
                 symbolic='byte value, offset, BOM flag'),
